@@ -49,7 +49,7 @@ impl SliceItems<Option<f64>> for tevec::export::polars::prelude::Float64Chunked 
 /// the accessors of one container against the logical sequence (a panic of an accessor is data)
 fn accessors<'a, T, V>(v: &'a V, logical: &[u64], contiguous: Option<bool>) -> Result<(), String>
 where
-    T: IsNone<Inner = f64> + Clone + 'a,
+    T: IsNone<Inner = f64> + Clone + Cast<f64> + 'a,
     V: Vec1View<T> + ?Sized,
     V::SliceOutput<'a>: SliceItems<T>,
 {
@@ -61,7 +61,7 @@ where
 
 fn accessors_inner<'a, T, V>(v: &'a V, logical: &[u64], contiguous: Option<bool>) -> Result<(), String>
 where
-    T: IsNone<Inner = f64> + Clone + 'a,
+    T: IsNone<Inner = f64> + Clone + Cast<f64> + 'a,
     V: Vec1View<T> + ?Sized,
     V::SliceOutput<'a>: SliceItems<T>,
 {
@@ -92,6 +92,27 @@ where
     let back: Vec<u64> = v.titer().rev().map(obits).collect();
     if back.iter().rev().cloned().collect::<Vec<_>>() != logical {
         return Err("backward iteration disagrees with the logical sequence".to_string());
+    }
+    // derived views of the same sequence (Containers.tla AUvGet / AToOptIter): element and iteration as
+    // options, and the casting iterators
+    let nullbits = bits(f64::NAN);
+    let as_opt = |b: u64| if b == nullbits { None } else { Some(b) };
+    for i in 0..n {
+        if unsafe { v.uvget(i) }.map(bits) != as_opt(logical[i]) {
+            return Err(format!("uvget({i}) disagrees with the logical sequence"));
+        }
+    }
+    let oi: Vec<Option<u64>> = v.to_opt_iter().map(|x| x.map(bits)).collect();
+    if oi != logical.iter().map(|b| as_opt(*b)).collect::<Vec<_>>() {
+        return Err(format!("to_opt_iter() yields {oi:?}, logical {logical:?}"));
+    }
+    let ic: Vec<u64> = v.iter_cast::<f64>().map(|x| if x.is_nan() { nullbits } else { bits(x) }).collect();
+    if ic != logical {
+        return Err(format!("iter_cast::<f64>() yields {ic:?}, logical {logical:?}"));
+    }
+    let oc: Vec<Option<u64>> = v.opt_iter_cast::<f64>().map(|x| x.map(bits)).collect();
+    if oc != oi {
+        return Err(format!("opt_iter_cast::<f64>() yields {oc:?}, to_opt_iter() {oi:?}"));
     }
     let (lo, up) = v.titer().size_hint();
     if lo != n || up != Some(n) {
@@ -361,6 +382,34 @@ fn mut_accessors<'a, V: Vec1Mut<'a, f64>>(v: &mut V, vals: &[f64], contiguous: b
     }
 }
 
+/// sort_unstable_by on an owned container (Containers.tla SortOK): the logical sequence becomes its
+/// sorted permutation, whatever the layout (through the contiguous view or by copy and write-back)
+fn sort_in_place<V>(v: &mut V, want_desc: &[f64], rank: &std::collections::HashMap<u64, i64>) -> Result<(), String>
+where
+    V: Vec1<f64> + for<'a> Vec1Mut<'a, f64>,
+{
+    let r = catch(move || -> Result<(), String> {
+        // descending in the specification's own order of the payload (the float coding of the payload is
+        // deliberately not monotone)
+        v.sort_unstable_by(|a, b| rank[&bits(*b)].cmp(&rank[&bits(*a)])).map_err(|e| format!("sort_unstable_by failed: {e}"))?;
+        let got: Vec<u64> = (0..v.len()).map(|i| v.get(i).map(bits).unwrap_or(1)).collect();
+        let want: Vec<u64> = want_desc.iter().map(|x| bits(*x)).collect();
+        if got != want || v.len() != want.len() {
+            return Err(format!("after sort_unstable_by(descending) the container reads {:?}, want {want_desc:?}",
+                (0..v.len()).map(|i| v.get(i).unwrap_or(f64::NAN)).collect::<Vec<_>>()));
+        }
+        let it: Vec<u64> = v.titer().map(bits).collect();
+        if it != want {
+            return Err("after sort_unstable_by iteration and get disagree".into());
+        }
+        Ok(())
+    });
+    match r {
+        Ok(x) => x,
+        Err(p) => Err(format!("panicked: {p}")),
+    }
+}
+
 /// The representation as a place results are WRITTEN to (Containers.tla, WriteCell): a
 /// caller-supplied ring with this capacity and head, filled through the `*_to` twins.
 fn out_as_ring(vals: &Vec<f64>, cap: usize, head: usize) -> Result<(), String> {
@@ -511,6 +560,8 @@ fn replay(args: &Args) {
         let logical_i = get_ints(v, "logical");
         let contiguous = v["contiguous"].as_bool().unwrap();
         let (vals, lbits) = enc_logical(&logical_i);
+        let sorted_desc: Vec<f64> = enc_logical(&get_ints(v, "sorted_desc")).0;
+        let rank: std::collections::HashMap<u64, i64> = lbits.iter().cloned().zip(logical_i.iter().cloned()).collect();
         let key = format!("{kind}{par:?}|logical={logical_i:?}");
         let reference = battery::<f64, _>(&vals).unwrap_or_else(|p| tool_error(&format!("reference battery panicked on Vec<f64>: {p} ({key})")));
         let reference_f = battery_f64(&vals).unwrap_or_else(|p| tool_error(&format!("reference battery panicked: {p}")));
@@ -521,6 +572,8 @@ fn replay(args: &Args) {
                 cx.judge("Vec<f64>", "outputs", out_matrix::<f64, _>(&vals));
                 cx.judge("Vec<f64>", "mutable accessors", mut_accessors(&mut vals.clone(), &vals, true));
                 cx.judge("Array1<f64>", "mutable accessors", mut_accessors(&mut Array1::from_vec(vals.clone()), &vals, true));
+                cx.judge("Array1<f64>", "sort_unstable_by", sort_in_place(&mut Array1::from_vec(vals.clone()), &sorted_desc, &rank));
+                cx.judge("Vec<f64>", "sort_unstable_by", sort_in_place(&mut vals.clone(), &sorted_desc, &rank));
                 let sl: &[f64] = &vals;
                 cx.judge("[f64]", "accessors", accessors::<f64, [f64]>(sl, &lbits, Some(true)));
                 let arc = Arc::new(vals.clone());
@@ -568,6 +621,7 @@ fn replay(args: &Args) {
                 cx.judge(&cell, "outputs", out_matrix::<f64, _>(&d));
                 cx.judge(&format!("Vec<f64>->{cell} as caller buffer"), "written", out_as_ring(&vals, cap, head));
                 cx.judge(&cell, "mutable accessors", mut_accessors(&mut d.clone(), &vals, !wrapped));
+                cx.judge(&cell, "sort_unstable_by", sort_in_place(&mut d.clone(), &sorted_desc, &rank));
                 let arc = Arc::new(d.clone());
                 cx.compare(&format!("Arc<{cell}>"), battery::<f64, _>(&arc), false);
                 // (the option view is not offered for VecDeque: its slice type is not iterable as TIter)
@@ -630,6 +684,7 @@ fn replay(args: &Args) {
                     cx.compare(&cell, battery_f64(&moved), true);
                     cx.judge(&cell, "outputs", out_matrix::<f64, _>(&moved));
                     cx.judge(&cell, "mutable accessors", mut_accessors(&mut moved.clone(), &vals, contiguous));
+                    cx.judge(&cell, "sort_unstable_by", sort_in_place(&mut moved.clone(), &sorted_desc, &rank));
                     let arc = Arc::new(moved);
                     cx.compare(&format!("Arc<{cell}>"), battery::<f64, _>(&arc), false);
                 }
